@@ -25,6 +25,13 @@ type replayMemoFact struct {
 
 func (f *replayMemoFact) Get() int { f.Calls++; return f.A }
 
+type replayMemoOpsFact struct {
+	Calls, A int
+	Tags     map[string]string
+	S        string
+	X        float64
+}
+
 func TestReplaySearchMemo(t *testing.T) {
 	paths := []struct{ name, path string }{
 		{"top-level variable", "N"},
@@ -73,6 +80,32 @@ func TestReplaySearchMemo(t *testing.T) {
 			}
 		}
 	}
+	// remembered values below an operator applied to the variable itself: negation of a top-level flag, a string method on a
+	// map element, and the five assignment forms on a string and a float (each must fire once / compute per its own text)
+	{
+		grl := `rule Flip "f" { when !Done then Done = true; F.Calls = F.Calls + 1; }
+rule Tag "t" { when F.Tags["state"].HasPrefix("op") then F.Tags["state"] = "closed"; F.A = F.A + 1; }
+rule Str "s" salience -1 { when F.S == "a" then F.S += "b"; F.S += "c"; F.X = 8.0; F.X -= 2; F.X *= 3; F.X /= 4; }`
+		lib := ast.NewKnowledgeLibrary()
+		if err := builder.NewRuleBuilder(lib).BuildRuleFromResource("K", "1", pkg.NewBytesResource([]byte(grl))); err != nil {
+			t.Fatalf("build %s: %v", grl, err)
+		}
+		kb, err := lib.NewKnowledgeBaseInstance("K", "1")
+		if err != nil {
+			t.Fatal(err)
+		}
+		f := &replayMemoOpsFact{Tags: map[string]string{"state": "open"}, S: "a"}
+		d := ast.NewDataContext()
+		d.Add("F", f)
+		d.Add("Done", false)
+		e := NewGruleEngine()
+		e.MaxCycle = 12
+		res := e.Execute(d, kb)
+		if res != nil || f.Calls != 1 || f.A != 1 || f.S != "abc" || f.X != 4.5 {
+			t.Fatalf("CONFIRMED: rules\n%s\nend with Calls=%d (want 1), A=%d (want 1), S=%q (want \"abc\"), X=%v (want 4.5), Execute returned %v", grl, f.Calls, f.A, f.S, f.X, res)
+		}
+	}
+
 }
 
 // The same location reached through two different selector expressions (its own harness: it demonstrates an open finding and
